@@ -71,6 +71,7 @@ let table : (string * (sexp -> sexp)) list = [
   ("C05", run_C05);
   ("C03", run_C03);
   ("C04", run_C04);
+  ("C09", run_C09);
 ]
 
 let () =
